@@ -124,38 +124,38 @@ end
 
 mutual
   /-- Go `Exp.filter(type)`: narrow struct values to the declared members. -/
-  def filterExp (ti : TypeInfo) (ty : Ty) : RExp → RExp
+  def filterExp (mo : String → Option Members) (ty : Ty) : RExp → RExp
     | .arr es =>
-      match membersOf ti ty.base with
+      match mo ty.base with
       | none => .arr es
       | some _ =>
         if ty.arrayDim = 0 then .arr es
-        else .arr (filterElems ti { ty with arrayDim := ty.arrayDim - 1 } es)
+        else .arr (filterElems mo { ty with arrayDim := ty.arrayDim - 1 } es)
     | .map st es =>
-      match membersOf ti ty.base with
+      match mo ty.base with
       | none => .map st es
       | some ms =>
-        if ty.arrayDim = 0 ∧ ty.mapDim = 0 then .map true (filterMembers ti ms es)
-        else if ty.arrayDim = 0 then .map false (filterElems ti ⟨ty.base, ty.mapDim - 1, 0⟩ es)
+        if ty.arrayDim = 0 ∧ ty.mapDim = 0 then .map true (filterMembers mo ms es)
+        else if ty.arrayDim = 0 then .map false (filterElems mo ⟨ty.base, ty.mapDim - 1, 0⟩ es)
         else .map st es
     | .lit s => .lit s
     | .sref fq c p => .sref fq c p
     | .split e => .split e
     | .nil => .nil
     | .cons k h t => .cons k h t
-  def filterElems (ti : TypeInfo) (ty : Ty) : RExp → RExp
-    | .cons k h t => .cons k (filterExp ti ty h) (filterElems ti ty t)
+  def filterElems (mo : String → Option Members) (ty : Ty) : RExp → RExp
+    | .cons k h t => .cons k (filterExp mo ty h) (filterElems mo ty t)
     | .lit s => .lit s
     | .sref fq c p => .sref fq c p
     | .split e => .split e
     | .arr es => .arr es
     | .map b es => .map b es
     | .nil => .nil
-  def filterMembers (ti : TypeInfo) (ms : Members) : RExp → RExp
+  def filterMembers (mo : String → Option Members) (ms : Members) : RExp → RExp
     | .cons k h t =>
       match ms.lookup k with
-      | some mty => .cons k (filterExp ti mty h) (filterMembers ti ms t)
-      | none => filterMembers ti ms t
+      | some mty => .cons k (filterExp mo mty h) (filterMembers mo ms t)
+      | none => filterMembers mo ms t
     | .lit s => .lit s
     | .sref fq c p => .sref fq c p
     | .split e => .split e
@@ -238,10 +238,23 @@ type of the parameter it binds. -/
 def resolveBinds (ti : TypeInfo) (tys : Members) (f : Ref → RExp) (bs : List Bind) : Env :=
   bs.map fun b =>
     (b.name, match tys.lookup b.name with
-             | some ty => filterExp ti ty (substRefs f b.exp)
+             | some ty => filterExp (membersOf ti) ty (substRefs f b.exp)
              | none => substRefs f b.exp)
 
 def outNames (c : Callable) : List String := c.outs.map (·.1)
+
+/-- resolved inputs of call `k` (callee `d`) of pipeline `pipe`, given the
+pipeline's own resolved inputs and its calls' resolved outputs -/
+def callIns (ti : TypeInfo) (pipe : Callable) (self : Env) (sib : String → RExp) (d : Callable) (k : Call) : Env :=
+  resolveBinds ti (insOf ti d.name) (lookupRef self sib) (expandWild ti pipe d.ins k.binds)
+
+/-- resolved outputs of pipeline `d`: the struct of its resolved return bindings -/
+def pipeOuts (ti : TypeInfo) (d : Callable) (ins : Env) (sib : String → RExp) : RExp :=
+  .map true (envEntries (resolveBinds ti (outsOf ti d.name) (lookupRef ins sib)
+    (expandWild ti d (outNames d) d.ret)))
+
+def pipeRetained (d : Callable) (ins : Env) (sib : String → RExp) : List RExp :=
+  d.retain.flatMap (fun r => rrefs (lookupRef ins sib r))
 
 /-- the resolved outputs of call `id` of pipeline `pipe`, whose own resolved
 inputs are `self` and whose node has the fqid `pre`: a stage is a reference to
@@ -259,10 +272,8 @@ def callOutputs (ti : TypeInfo) (p : Program) : Nat → Callable → Env → Lis
         if !d.isPipe then (if d.outs.isEmpty then rnull else .sref (pre ++ [id]) d.name [])
         else if d.ret.isEmpty then rnull
         else
-          let ins := resolveBinds ti (insOf ti d.name)
-            (lookupRef self (callOutputs ti p fuel pipe self pre)) (expandWild ti pipe d.ins k.binds)
-          .map true (envEntries (resolveBinds ti (outsOf ti d.name)
-            (lookupRef ins (callOutputs ti p fuel d ins (pre ++ [id]))) (expandWild ti d (outNames d) d.ret)))
+          let ins := callIns ti pipe self (callOutputs ti p fuel pipe self pre) d k
+          pipeOuts ti d ins (callOutputs ti p fuel d ins (pre ++ [id]))
 
 structure Node where
   fqid : List String
@@ -280,13 +291,11 @@ def nodesOf (ti : TypeInfo) (p : Program) (big : Nat) : Nat → Callable → Env
     match p.find? k.decId with
     | none => []
     | some d =>
-      let sib := callOutputs ti p big pipe self pre
-      let ins := resolveBinds ti (insOf ti d.name) (lookupRef self sib) (expandWild ti pipe d.ins k.binds)
+      let ins := callIns ti pipe self (callOutputs ti p big pipe self pre) d k
       let fq := pre ++ [k.id]
-      let kids := callOutputs ti p big d ins fq
       { fqid := fq, callable := d.name, isPipe := d.isPipe, inputs := ins,
         outputs := callOutputs ti p (big + 1) pipe self pre k.id,
-        retained := if d.isPipe then d.retain.flatMap (fun r => rrefs (lookupRef ins kids r)) else [] }
+        retained := if d.isPipe then pipeRetained d ins (callOutputs ti p big d ins fq) else [] }
       :: (if d.isPipe then d.calls.flatMap (nodesOf ti p big fuel d ins fq) else [])
 
 def graphFuel (p : Program) : Nat :=
@@ -338,5 +347,48 @@ def TypeInfo.removeInput (x q : String) (ti : TypeInfo) : TypeInfo :=
 
 def TypeInfo.removeOutput (x o : String) (ti : TypeInfo) : TypeInfo :=
   { ti with outs := onKey x (dropKeyM o) ti.outs }
+
+end Martian.Refactor
+
+namespace Martian.Refactor
+
+/-! ## specification vocabulary for the call-graph theorems (Props/C19.lean) -/
+
+def renKeyEnv (old new : String) : Env → Env
+  | [] => []
+  | (k, v) :: rest => if k = old then (new, v) :: rest else (k, v) :: renKeyEnv old new rest
+
+/-- the node of a call of `x` after input `a` of `x` was renamed to `b` -/
+def renNodeIn (x a b : String) (n : Node) : Node :=
+  if n.callable = x then { n with inputs := renKeyEnv a b n.inputs } else n
+
+def noStar (bs : List Bind) : Bool := bs.all (·.name != "*")
+
+def selfRefTo (b : String) (r : Ref) : Bool := r.kind == RefKind.self && r.id == b
+
+/-- per-callable side conditions of `rename_input_graph`: no wildcard bindings
+(KF1), distinct call ids, stages have no body; the new name `b` is fresh: the
+body of `x` does not refer to `self.b`, no call of `x` binds `b`; a call of `x`
+binds every parameter once; `x` does not call itself. -/
+def pipeOKIn (x b : String) (c : Callable) : Bool :=
+  (c.isPipe || c.calls.isEmpty)
+  && decide (callIds c).Nodup
+  && c.calls.all (fun k => noStar k.binds)
+  && noStar c.ret
+  && (c.name != x ||
+       (c.calls.all (fun k => k.decId != x
+          && k.binds.all (fun bd => (refs bd.exp).all (fun r => !selfRefTo b r)))
+        && c.ret.all (fun bd => (refs bd.exp).all (fun r => !selfRefTo b r))
+        && c.retain.all (fun r => !selfRefTo b r)))
+  && c.calls.all (fun k => k.decId != x
+        || (!(k.binds.map (·.name)).contains b && decide (k.binds.map (·.name)).Nodup))
+
+/-- **freshness / well-formedness hypothesis of `rename_input_graph`** (decidable) -/
+def RenInOK (x a b : String) (ti : TypeInfo) (p : Program) : Bool :=
+  x != "" && b != "*" && a != b
+  && (p.find? x).isSome
+  && p.callables.all (pipeOKIn x b)
+  && (match p.top with | some t => pipeOKIn x b (topPipe t) | none => true)
+  && !((insOf ti x).map (·.1)).contains b
 
 end Martian.Refactor
